@@ -384,6 +384,50 @@ func (env *rEnv) call(n *rNode) Value {
 			}
 			return env.fail("no call to %s on this path", n.Args[0].Text)
 		}
+	case "callargN":
+		// callargN("Short", k, i): i-th argument (receiver = 0) of the k-th (0-based) modular call to that function
+		if n.Args[0].Op == "str" && len(n.Args) == 3 {
+			k, ok1 := constIndex(env.eval(n.Args[1]))
+			idx, ok2 := constIndex(env.eval(n.Args[2]))
+			if ok1 && ok2 {
+				c := 0
+				for _, ev := range env.post.trace {
+					if ev.Kind == "call:"+n.Args[0].Text {
+						if c == k && idx < len(ev.Args) {
+							return ev.Args[idx]
+						}
+						c++
+					}
+				}
+			}
+			return env.fail("no such call to %s on this path", n.Args[0].Text)
+		}
+	case "calltargetnil":
+		// calltargetnil("Short", i): what the i-th (pointer) argument of the last modular call to Short pointed to was nil
+		// (a nil map/slice/pointer) when the call was made
+		if n.Args[0].Op == "str" {
+			if idx, ok := constIndex(env.eval(n.Args[1])); ok {
+				for i := len(env.post.trace) - 1; i >= 0; i-- {
+					if ev := env.post.trace[i]; ev.Kind == "call:"+n.Args[0].Text {
+						if t, ok := ev.Terms[fmt.Sprintf("targetnil%d", idx)]; ok {
+							return sym(t)
+						}
+						return env.fail("argument %d of %s is not a pointer", idx, n.Args[0].Text)
+					}
+				}
+			}
+			return env.fail("no call to %s on this path", n.Args[0].Text)
+		}
+	case "callunlocked":
+		// callunlocked("Short"): no lock was held at any modular call to Short on this path
+		if n.Args[0].Op == "str" {
+			for _, ev := range env.post.trace {
+				if ev.Kind == "call:"+n.Args[0].Text && len(ev.Locks) > 0 {
+					return sym(TFalse)
+				}
+			}
+			return sym(TTrue)
+		}
 	case "callbackarg":
 		// callbackarg(i): i-th argument of the most recent client callback invocation
 		if idx, ok := constIndex(env.eval(n.Args[0])); ok {
